@@ -83,6 +83,17 @@ Definition set_cell (w : world) (c : nat) (v : value) : world :=
 Definition add_event (e : event) (w : world) : world :=
   {| heap := heap w; cells := cells w; trace := trace w ++ [e] |}.
 
+(* After a module has been initialised all its values are frozen.  Everything a later
+   entry into the module can reach is reachable from its globals, so freezing every
+   object of the heap is observationally the same. *)
+Definition freeze_obj (o : obj) : obj :=
+  match o with
+  | OList vs n => OList vs (n + frozen_mark)
+  | ODict kvs n => ODict kvs (n + frozen_mark)
+  end.
+Definition freeze_all (w : world) : world :=
+  {| heap := map freeze_obj (heap w); cells := cells w; trace := trace w |}.
+
 (* ---------------------------------------------------------------- truth, equality, ordering *)
 Definition range_len (a b s : Z) : Z :=
   if 0 <? s then (if a <? b then (b - a + s - 1) / s else 0)
